@@ -300,13 +300,10 @@ func VerifLemma_C14B_Put() {
 	s := verifNondetString(verifParam("ARG"))
 	key, valid := refCKey(s)
 	w1 := verifNondetString(verifParam("DATA"))
-	w2 := verifNondetString(1)
+	w2 := verifNondetStringN(1)
 	verifCover("state and argument")
-	var opts []storage.PutOption
-	if verifNondetBool() {
-		opts = append(opts, storage.PutWithAtomic())
-	}
-	woc, err := b.Put(ctx, s, opts...)
+	// storagemem.Put ignores its options (parameter named _), so one option set covers both
+	woc, err := b.Put(ctx, s, storage.PutWithAtomic())
 	if !valid || key == "." {
 		verifAssert(err != nil && woc == nil, "Put: invalid or root path is an error")
 		vcCheckState(b, m, "after rejected Put")
